@@ -203,3 +203,98 @@ pub fn trace(args: &[String]) -> i32 {
     println!("{}", json!({"records": n}));
     0
 }
+
+/// `conform c07-record --in FILE --out FILE`: every literal is given to the library's number parser,
+/// written as a query, and written as a query with a percent sign.
+pub fn literals(args: &[String]) -> i32 {
+    quiet_panics();
+    let inp = arg_value(args, "--in").expect("--in");
+    let outp = arg_value(args, "--out").expect("--out");
+    let home = std::env::temp_dir().join(format!("conform-home-{}", std::process::id()));
+    std::fs::create_dir_all(&home).unwrap();
+    std::env::set_var("XDG_DATA_HOME", &home);
+    let db = Db::in_memory().expect("in-memory db");
+    let mut out = Out::create(&outp);
+    let bad = || json!({"ok": false, "neg": false, "n": [0], "d": [1], "count": 0});
+    let val = |n: &anything::Rational, count: usize| {
+        let num = n.numer().to_string();
+        json!({"ok": true, "neg": num.starts_with('-'), "n": limbs(&num), "d": limbs(&n.denom().to_string()), "count": count})
+    };
+    let via_query = |src: &str| -> Value {
+        let o = run_query(&db, src, false);
+        if o.panic.is_some() || o.parse_error.is_some() {
+            return bad();
+        }
+        match o.results.as_slice() {
+            [Ok(n)] if n.unit.is_empty() => val(&n.value, 1),
+            rs => {
+                let mut b = bad();
+                b["count"] = json!(rs.len());
+                b
+            }
+        }
+    };
+    let mut n = 0usize;
+    for (i, line) in read_lines(&inp).iter().enumerate() {
+        let src: String = serde_json::from_str(line).unwrap_or_else(|_| line.clone());
+        let lib = match std::panic::catch_unwind(|| src.parse::<anything::Rational>()) {
+            Ok(Ok(r)) => val(&r, 1),
+            _ => bad(),
+        };
+        let q = via_query(&src);
+        let pct = via_query(&format!("{}%", src));
+        out.line(&json!({"id": i + 1, "text": src, "src": char_names(&src), "lib": lib, "q": q, "pct": pct}));
+        n += 1;
+    }
+    out.finish();
+    let _ = std::fs::remove_dir_all(&home);
+    println!("{}", json!({"records": n}));
+    0
+}
+
+/// `conform c08-record --in FILE --out FILE`: every vector {neg, n, d, k, limit, el} is rendered by
+/// `Rational::display`; the printed characters are recorded (the continuation mark as "ELL").
+pub fn display(args: &[String]) -> i32 {
+    use num::BigInt;
+    quiet_panics();
+    let inp = arg_value(args, "--in").expect("--in");
+    let outp = arg_value(args, "--out").expect("--out");
+    let mut out = Out::create(&outp);
+    let mut count = 0usize;
+    for (i, line) in read_lines(&inp).iter().enumerate() {
+        let v: Value = serde_json::from_str(line).expect("vector");
+        let (n, d, k) = (v["n"].as_i64().unwrap(), v["d"].as_i64().unwrap(), v["k"].as_i64().unwrap());
+        let neg = v["neg"].as_bool().unwrap();
+        let (limit, el) = (v["limit"].as_u64().unwrap() as usize, v["el"].as_u64().unwrap() as usize);
+        let mut num = BigInt::from(n);
+        let mut den = BigInt::from(d);
+        let ten = BigInt::from(10);
+        for _ in 0..k.abs() {
+            if k > 0 {
+                num *= &ten;
+            } else {
+                den *= &ten;
+            }
+        }
+        if neg {
+            num = -num;
+        }
+        let r = anything::Rational::new(num, den);
+        let text = std::panic::catch_unwind(|| {
+            let mut spec = anything::rational::DisplaySpec::default();
+            spec.limit = limit;
+            spec.exponent_limit = el;
+            r.display(&spec).to_string()
+        });
+        let (text, panic) = match text {
+            Ok(t) => (t, String::new()),
+            Err(e) => (String::new(), panic_text(e)),
+        };
+        let chars: Vec<String> = text.chars().map(|c| if c == '…' { "ELL".to_string() } else { c.to_string() }).collect();
+        out.line(&json!({"id": i + 1, "neg": neg, "n": n, "d": d, "k": k, "limit": limit, "el": el, "text": text, "chars": chars, "panic": panic}));
+        count += 1;
+    }
+    out.finish();
+    println!("{}", json!({"records": count}));
+    0
+}
